@@ -633,6 +633,11 @@ class Host(HostBase):
                 return Term("add", (a, b), self.ctx.new_id())
             sa, sb = self.is_strlike(a), self.is_strlike(b)
             if sa and sb:
+                # x + "" is x itself for a str (same value; identity is not observable for immutable text)
+                if isinstance(b, Const) and b.value == "" and self.is_strlike(a):
+                    return a
+                if isinstance(a, Const) and a.value == "" and self.is_strlike(b):
+                    return b
                 return Term("concat", (a, b), self.ctx.new_id())
         if op == "Mult":
             for x, y in ((a, b), (b, a)):
@@ -956,6 +961,34 @@ class Host(HostBase):
 
     def external_init(self, inst: Inst, args: List[AV], kwargs: Dict[str, AV], node: Any) -> None:
         ext = inst.cls.all_external_bases()
+        decos = [ast.unparse(d).split("(")[0].split(".")[-1] for d in inst.cls.node.decorator_list]
+        if "dataclass" in decos:
+            # the generated __init__: one parameter per annotated field, in order, class-level values as defaults
+            fields: List[str] = []
+            defaults: Dict[str, ast.expr] = {}
+            for c in reversed(inst.cls.mro()):
+                for f in c.attr_annotations:
+                    if f not in fields:
+                        fields.append(f)
+                    if f in c.attrs:
+                        defaults[f] = c.attrs[f]
+            if len(args) > len(fields):
+                raise self.raise_("TypeError", f"{inst.cls.name}() takes {len(fields)} positional arguments", node)
+            for f, a in zip(fields, args):
+                inst.attrs[f] = a
+            for f in fields[len(args):]:
+                if f in kwargs:
+                    inst.attrs[f] = kwargs[f]
+                elif f in defaults:
+                    from .absint import Frame
+
+                    inst.attrs[f] = self.i.eval(defaults[f], Frame(None, inst.cls.module))
+                else:
+                    raise self.raise_("TypeError", f"{inst.cls.name}() missing argument {f}", node)
+            extra = set(kwargs) - set(fields)
+            if extra:
+                raise self.raise_("TypeError", f"{inst.cls.name}() got an unexpected keyword argument {sorted(extra)[0]}", node)
+            return
         if any(e in BUILTIN_EXC_BASES for e in ext):
             if kwargs:
                 raise self.raise_("TypeError", f"{inst.cls.name}() takes no keyword arguments", node)
